@@ -347,7 +347,7 @@ class Impl:
         else:
             table.write(r, c, v)
 
-    def run(self, v, calls) -> tuple[str, str | None]:
+    def run(self, v, calls, display=True) -> tuple[str, str | None]:
         """-> (protocol line as the driver prints it, displayed text or None)"""
         self.n += 1
         if self.n > 4000:
@@ -359,6 +359,8 @@ class Impl:
                 t.set_cell_formatting(0, 0, name, **kw)
             except Exception as e:  # noqa: BLE001
                 return f"err {exc_name(e)} {i}", None
+        if not display:
+            return "ok (accepted; not displayed)", None
         return self.describe(self.doc._model, t.cell(0, 0), t.cell(0, 0))
 
     def describe(self, model, shown_cell, cell):
@@ -615,11 +617,25 @@ def run_set_display(ctx: Ctx, c13, impl: Impl, names, tag: str):
                     extra = number_args_for(rng, cf.name.lower()) if hasattr(cf, "name") else number_args_for(rng, "number")
                     kw = {**extra, **kw}
                 calls = [(name, kw)]
-                line, text = impl.run(v, calls)
+                inp = payload(v, calls)
+                display = True
+                if name in ("slider", "stepper") and hasattr(kw.get("control_format"), "name"):
+                    # arguments the number format itself rejects must be rejected by the control too (and are never displayed:
+                    # an unvalidated base of 1 would loop forever in _format_base)
+                    cf = kw["control_format"]
+                    plain = {k: x for k, x in kw.items() if k not in ("control_format", "increment", "maximum", "minimum")}
+                    calls2 = [(cf.name.lower(), plain)]
+                    line2, _ = impl.run(v, calls2)
+                    if line2.startswith("err"):
+                        display = False
+                line, text = impl.run(v, calls, display=display)
+                if not display and not line.startswith("err"):
+                    ctx.violation("control-format-validation",
+                                  f"{name} with control_format={cf.name} accepts {plain}; the {cf.name.lower()} format itself "
+                                  f"rejects the same arguments ({line2})", {**inp, "compare_with": [[n, enc_kw(k)] for n, k in calls2]})
                 req.append(request("set", v, calls))
                 out.append(line)
-                inp = payload(v, calls)
-                if not line.startswith("err"):
+                if not line.startswith("err") and display:
                     glue_oracles(ctx, c13, impl, name, kw, v, line, text, inp)
     ctx.correspond(f"glue[{tag}]: every subset of the optional arguments (valid / invalid values, seeded) x value pool through "
                    "Table.write + set_cell_formatting + formatted_value", req, out)
@@ -637,6 +653,10 @@ def glue_oracles(ctx: Ctx, c13, impl: Impl, name: str, kw: dict, v, line: str, t
         number_oracle(ctx, c13, name, kw, v, text, inp)
     elif name in ("slider", "stepper"):
         cf = kw.get("control_format", CF.NUMBER)
+        if not hasattr(cf, "name"):
+            ctx.violation("control-format-unknown-accepted",
+                          f"{name} accepts control_format={cf!r}, which is no ControlFormattingType (documented: TypeError)", inp)
+            return
         number_oracle(ctx, c13, cf.name.lower(), kw, v, text, inp)
         # … and is what the number format itself displays with the same arguments
         plain = {k: x for k, x in kw.items() if k not in ("control_format", "increment", "maximum", "minimum")}
